@@ -42,10 +42,10 @@ variable {d : Nat}
 /-! ### Bridge: model linear algebra = Mathlib matrices -/
 
 theorem tabV_eq {α : Type} (v : Vec d α) : tabV v = v := by
-  funext i; simp [tabV, ofVector]
+  funext i; simp [tabV, TVec.get, TVec.ofFn]
 
 theorem tabM_eq {α : Type} (A : Mat d α) : tabM A = A := by
-  funext i j; simp [tabM, ofVector2]
+  funext i j; simp [tabM, TMat.get, TMat.ofFn]
 
 theorem dotI_eq (u v : Vec d Int) : dotI u v = ∑ k, u k * v k := by
   simp [dotI, List.sum_ofFn]
